@@ -360,7 +360,8 @@ def execute(case, keep_log=False):
     # a pickup whose extent is not delimited by notes: it starts with a rest, or the bar after it has no note onset
     # (the format stores neither rests nor measure lengths)
     m0 = ap["measures"][0]
-    pitched = [n for n in ap["notes"] if n["kind"] in ("note", "grace")]
+    # the file has one snote line per *sounding* note: the continuation of a tie has no onset of its own in it
+    pitched = [n for n in ap["notes"] if n["kind"] in ("note", "grace") and not n.get("tie_prev")]
     shape["pickup_undelimited"] = bool(shape["pickup"] and (not any(n["t"] == m0["s"] for n in pitched) or not any(n["m"] == 1 for n in pitched)))
     res.log.add("world", "init", {"mode": "roundtrip", "shape": shape, "kinds": sorted(kinds), "knobs": kn, "pnotes": len(notes)})
     score = build.build_score(asc)
@@ -419,6 +420,7 @@ def execute(case, keep_log=False):
                     disturbed = None
                     if fs.get(path) != ref_bytes:
                         res.violation("R4-routes", "save", "acknowledged save stored text that differs from the fault-free reference", site="path")
+                        content[path] = "unknown"
                 else:
                     content[path] = "unknown"
                     s1 = snapper.snapshot(score, ppart, alignment)
